@@ -34,14 +34,27 @@ CLAIMED = {
     design_ref="DESIGN.md section 6 C10",
     note="Buffer-level independence (capacity, stale words, in-place word movement in dec.*) is exercised, not proved.",
     technique="Coq value-level model (alias-free by construction) + exhaustive aliasing-shape correspondence"),
- "C19": dict(
+ "C18": dict(
     category="other",
-    text="Context: executable Coq model of context.Context (apply-then-operate, ErrNaN latch, Err) decided by correspondence: " + CORR +
-         " (rounding to the context's precision/mode for receivers distinct from operands, store untouched while an ErrNaN is "
-         "pending, Err() reports exactly once, nil-operand run-time errors escape).",
+    text="Partial by nature: Coq theorems (Props/C18.v) prove for every interleaving of any number of threads and any collector "
+         "activity that a pooled scratch buffer is held by at most one thread and never while pooled; with C09/C10 (operations "
+         "write only their receiver) every schedule gives the sequential results at the model level. What no model can exhibit - "
+         "the Go memory model, sync.Pool internals, real data races on words - is sampled by the runtime half: k in {2,8,32} "
+         "goroutines over shared 40-260 word operands under GOMAXPROCS {1,4,16} with forced collections, every result compared "
+         "with the sequential one and operands re-checked; the thorough tier repeats it under the Go race detector.",
+    design_ref="DESIGN.md section 6 C18",
+    note="Proof covers the ownership discipline only; data-race freedom of the real runtime is exploration (stated as such).",
+    technique="Coq proof of pool ownership over all interleavings + concurrent differential runs (race detector in thorough)"),
+ "C19": dict(
+    category="proof",
+    text="Coq theorems (Props/C19.v, closed under the global context) on the state-machine model of context.Context: over ALL "
+         "sequences of latched operations, while an ErrNaN is pending every operation leaves the whole store and the context "
+         "untouched; the first error wins; Err() reports it exactly once and re-arms; an outcome that is not an ErrNaN is never "
+         "recorded; Add into a receiver distinct from its operands is the exact sum rounded once to the context's precision and "
+         "mode whatever attributes the receiver had. The model is tied to context.go by correspondence: " + CORR + ".",
     design_ref="DESIGN.md section 6 C19",
-    note="Model + correspondence + independent oracle; latch theorem pending.",
-    technique="Coq executable state-machine model + model/code correspondence over random operation sequences"),
+    note="The rounding theorem is stated for Add (the other operations go through the same apply lemma); Sqrt through a Context is not modelled in L5.",
+    technique="Coq proof by induction over operation sequences on a state-machine model + correspondence"),
  "C08": dict(
     category="other",
     text="Canonical-form invariant WF: proved preserved by round/setExpAndRound/Add/Sub/Mul/Quo/Set/SetPrec/Neg/Abs (the C01/C04 "
@@ -74,12 +87,16 @@ CLAIMED = {
     note="Known findings K5 (%+v) and K6 (rounding for output past MaxExp). See Props/C13.v for what is closed.",
     technique="Coq proof of layout lemmas on the model + correspondence with strconv/fmt oracles"),
  "C14": dict(
-    category="other",
-    text="Integer/rational getters and setters: executable Coq model (L3/Convert.v) with no closed conversion theorem yet; decided by "
-         "correspondence: " + CORR + " (truncation toward zero, saturation, accuracy, documented precisions, NewDecimal saturation).",
+    category="proof",
+    text="Coq theorems (Props/C14.v, closed under the global context): SetInt64, SetUint64, NewDecimal (for EVERY integer exponent, "
+         "saturating to +-0/+-Inf outside the range), SetInt (precision 0 becomes max(#digits, 34), so integers are stored exactly) "
+         "store the argument rounded once per the rational specification with a canonical receiver; Int truncates toward zero with "
+         "Exact iff nothing is discarded, else the sign of the discarded part; Rat returns exactly x in lowest terms; MinPrec is the "
+         "number of significant digits. Int64/Uint64 saturation, IsInt and SetRat have no closed theorem yet and are decided by "
+         "correspondence: " + CORR + ".",
     design_ref="DESIGN.md section 6 C14",
-    note="Model + correspondence + independent oracle; theorems pending (Props/C14.v holds kernel-evaluated examples only).",
-    technique="Coq executable model + model/code correspondence with exact-rational oracle"),
+    note="As C01. big.Int/big.Rat arguments are mathematical integers in the model; SetInt's float64 digit estimate is assumed never to under-estimate (argued in L3/Convert.v).",
+    technique="Coq proof of setter/getter models vs rational specification + correspondence with exact-rational oracle"),
  "C17": dict(
     category="other",
     text="Gob codec: byte-level executable Coq model (L4/Gob.v) with no closed theorem yet; decided by correspondence: " + CORR +
@@ -89,12 +106,15 @@ CLAIMED = {
     note="Model + correspondence + independent oracle; theorems pending.",
     technique="Coq executable byte-level model + model/code correspondence over corrupted streams"),
  "C20": dict(
-    category="other",
-    text="SetBitsExp/BitsExp/MantExp/SetMantExp: executable Coq model (L3/Convert.v) with no closed theorem yet; decided by "
-         "correspondence: " + CORR + " (value 0.mant x 10^exp over the whole int64 exponent range, inverse law, range saturation).",
+    category="proof",
+    text="Coq theorems (Props/C20.v, closed under the global context): SetBitsExp(mant, exp) for ANY slice of words below the base "
+         "and EVERY integer exponent stores 0.mant x 10^exp rounded once (precision 0 becomes the slice's digit capacity; all-zero "
+         "slices give 0); BitsExp denotes exactly the magnitude; MantExp splits x into mant in [0.1,1) and exp with x = mant x 10^exp; "
+         "SetMantExp(mant, e) for every integer e is mant x 10^e with mant's precision and mode, +-0/+-Inf exactly when the exponent "
+         "leaves the range; SetMantExp(MantExp) rebuilds exactly x. Tied to the code by correspondence: " + CORR + ".",
     design_ref="DESIGN.md section 6 C20",
-    note="Model + correspondence + independent oracle; theorems pending.",
-    technique="Coq executable model + model/code correspondence with exact-rational oracle"),
+    note="As C01; SetBitsExp's contract (words below 10^19, caller does not share the buffer) is a hypothesis.",
+    technique="Coq proof vs rational specification for all exponents + correspondence with exact-rational oracle"),
  "C04": dict(
     category="proof",
     text="Coq theorems (Props/C04.v, closed under the global context): for ALL operands, the model of Add/Sub/Mul/Quo raises "
